@@ -69,10 +69,27 @@ func (c *Conn) Read(b []byte) (int, error) {
 	return int(n), err
 }
 
+// writerOnly hides every method of a Conn but Write.
+type writerOnly struct {
+	c *Conn
+}
+
+func (w writerOnly) Write(b []byte) (int, error) {
+	return w.c.Write(b)
+}
+
 // ReadFrom reads data from r until EOF or error, optionally simulating
 // connection latency and throttling read throughput based on desired bandwidth
 // constraints.
 func (c *Conn) ReadFrom(r io.Reader) (int64, error) {
+	if c.Context != nil && c.Context.Shaping {
+		// A response that is being shaped has to pass through Write: that is
+		// where its throttles are enforced and its actions are performed.
+		// (bufio.Writer hands the rest of a body to ReadFrom once its buffer
+		// has been flushed.)
+		return io.Copy(writerOnly{c}, r)
+	}
+
 	c.ronce.Do(c.sleepLatency)
 
 	var total int64
